@@ -1564,6 +1564,33 @@ func genMvccSession(rng *rand.Rand, st *Stats) []string {
 						ops = append(ops, "flush", "compact this=0 id=1 adj=1.5")
 					}
 				}
+				if round == 0 {
+					// several base-level tables whose MaxVersion grows with the key: iterators with a
+					// Prefix AND SinceTs pick a sub-range of the level and filter it by MaxVersion; the
+					// level itself must be untouched for every later scan and Get
+					n := cts
+					if !managed {
+						n = 0
+						for _, o := range ops {
+							if strings.HasPrefix(o, "commit ") {
+								n++
+							}
+						}
+					}
+					rid := nextID
+					nextID++
+					ops = append(ops, fmt.Sprintf("begin %d 0 %d", rid, rts))
+					for sv := int64(n) - 8; sv < int64(n); sv++ {
+						if sv <= 0 {
+							continue
+						}
+						ops = append(ops, fmt.Sprintf("iter %d rev=0 all=0 prefetch=0 prefix=70 seek=rewind since=%d", rid, sv),
+							fmt.Sprintf("iter %d rev=%d all=0 prefetch=0 seek=rewind", rid, rng.Intn(2)),
+							fmt.Sprintf("get %d %s", rid, hx(wk[rng.Intn(len(wk))])))
+					}
+					ops = append(ops, fmt.Sprintf("discard %d", rid))
+					st.Inc("scenario_prefix_since_over_tables")
+				}
 				if round == 1 {
 					for _, id := range open {
 						ops = append(ops, fmt.Sprintf("discard %d", id))
